@@ -8,7 +8,6 @@ from buidl.ecc import SchnorrSignature
 from buidl.hash import hash_tapsighash
 from buidl.helper import (
     big_endian_to_int,
-    decode_base58,
     encode_varint,
     encode_varstr,
     hash256,
@@ -25,6 +24,7 @@ from buidl.helper import (
     SIGHASH_ANYONECANPAY,
 )
 from buidl.script import (
+    address_to_script_pubkey,
     P2PKHScriptPubKey,
     P2SHScriptPubKey,
     P2WPKHScriptPubKey,
@@ -842,11 +842,12 @@ tx_outs:\n{tx_outs}
 
     def find_utxos(self, address):
         """Returns transaction outputs that matches the address"""
-        h160 = decode_base58(address)
+        # the address stands for one scriptPubKey (type and hash); compare whole scripts
+        script_pubkey = address_to_script_pubkey(address)
         # utxos are a list of tuples: (hash, index, amount)
         utxos = []
         for index, tx_out in enumerate(self.tx_outs):
-            if tx_out.script_pubkey.hash160() == h160:
+            if tx_out.script_pubkey.commands == script_pubkey.commands:
                 utxos.append((self.hash(), index, tx_out.amount))
         return utxos
 
